@@ -117,7 +117,11 @@ function runScenario(mainSrc, sc) {
     setTimeout(fn) { timers.push(fn); return timers.length; },
     location: { search: sc.program !== null ? "?p=prog" : "" },
   };
-  const fetchMock = async () => ({ ok: true, status: 200, text: async () => sc.program });
+  // the download of the program file stays pending until the driver releases it, so that page events can be
+  // delivered while it is in flight
+  let releaseFetch = () => {};
+  const fetchGate = new Promise((res) => { releaseFetch = res; });
+  const fetchMock = async () => { await fetchGate; return { ok: true, status: 200, text: async () => sc.program }; };
   const DateMock = { now: () => Number(BigInt(sc.seed) % 9007199254740991n) };
   // the page converts Date.now() with BigInt(); hand the full 64-bit seed through a BigInt shim
   const BigIntShim = (v) => (v === DateMock.__now ? BigInt(sc.seed) : BigInt(v));
@@ -134,7 +138,7 @@ function runScenario(mainSrc, sc) {
     }
   };
   guard(() => fn(__modules, windowMock, fetchMock, DateMock, BigIntShim, { warn() {}, log() {}, error() {} }, URLSearchParams));
-  return { log, timers, ui, guard };
+  return { log, timers, ui, guard, releaseFetch };
 }
 
 async function main() {
@@ -145,11 +149,24 @@ async function main() {
     rpc("__begin", [sc.id]);
     const r = runScenario(mainSrc, sc);
     if (r.unsupported) { rpc("__end", [{ unsupported: r.unsupported }]); continue; }
-    const { log, timers, ui, guard } = r;
+    const { log, timers, ui, guard, releaseFetch } = r;
     // let wasm().then(async ...) run: module init, fetch, loadAndRunSourceCode, start(), handler registration
     let caught = null;
     const onRejection = (e) => { caught = e; };
     process.once("unhandledRejection", onRejection);
+    for (let i = 0; i < 4; i++) await new Promise((res) => setImmediate(res));
+    // events that arrive while the program file is still being downloaded (only handlers that are registered by
+    // then can see them; a page that registers none yet ignores them)
+    for (const ev of (sc.early || [])) {
+      if (log.trap || log.exception) break;
+      if (ev.t === "submit") {
+        if (!ui.inputDisabled && ui.submitCb) { ui.inputValue = ev.text; guard(() => ui.submitCb()); log.early_delivered = (log.early_delivered || 0) + 1; }
+      } else if (ev.t === "tick") {
+        const f = timers.shift();
+        if (f) guard(f);
+      }
+    }
+    releaseFetch();
     for (let i = 0; i < 8; i++) await new Promise((res) => setImmediate(res));
     process.removeListener("unhandledRejection", onRejection);
     if (caught) { if (caught.isTrap) log.trap = caught.message; else log.exception = String(caught && caught.message ? caught.message : caught); }
